@@ -78,7 +78,8 @@ def install(src, dst):
 
 
 def build(profile="verif", features=None, bins=None):
-    """Rebuild harness binaries (and with them the library from /repo's working tree, hooks on).
+    """Rebuild harness binaries (and with them the library from /repo's working tree; the library's verif-hooks
+    feature is on only in the feature set "hooks").
     bins: list of property ids (None = all). Returns ({pid: path}, log, seconds) or (None, log, s)."""
     sync_lock()
     cmd = ["cargo", "build", "--offline", "--profile", profile]
@@ -331,7 +332,7 @@ def check(pid, tier, nshards, scale):
     shutil.rmtree(wd, ignore_errors=True)
     os.makedirs(wd, exist_ok=True)
 
-    # ---- build from /repo's current working tree, hooks enabled
+    # ---- build from /repo's current working tree (default features; hooks only in the "hooks" configuration)
     configs = cfg.get("configs", [dict(profile="verif", features=None, label="")])
     if tier == "thorough":
         configs = cfg.get("configs_thorough", configs)
@@ -349,7 +350,8 @@ def check(pid, tier, nshards, scale):
     watchdog = cfg.get("watchdog_s", {"quick": 900, "thorough": 4 * 3600})[tier]
     totals = []
     for c, binp, allbins in builds:
-        procs = run_shards(pid, cfg, binp, tier, seed, nshards, scale, wd, label=c.get("label", ""))
+        procs = run_shards(pid, cfg, binp, tier, seed + c.get("seed_add", 0), nshards, scale * c.get("scale_mul", 1.0), wd,
+                           label=c.get("label", ""))
         problems = wait_shards(procs, watchdog)
         if problems:
             for s, ps, out, hs, errf in procs:
@@ -500,8 +502,8 @@ def replay(path):
             print("INCONCLUSIVE build failed")
             sys.exit(2)
         binp = bins[pid]
-        procs = run_shards(pid, cfg, binp, r["tier"], r["seed"], r["nshards"], r["scale"], wd,
-                           only_shard=r["shard"], label=c.get("label", ""))
+        procs = run_shards(pid, cfg, binp, r["tier"], r["seed"] + c.get("seed_add", 0), r["nshards"],
+                           r["scale"] * c.get("scale_mul", 1.0), wd, only_shard=r["shard"], label=c.get("label", ""))
         problems = wait_shards(procs, 4 * 3600)
         if problems:
             print("INCONCLUSIVE", problems)
@@ -527,7 +529,7 @@ def main():
         sys.exit(3)
     if a[0] == "build":
         ok = True
-        for prof, feat, bins in (("verif", None, None), ("verif", "borsh", ["C18"])):
+        for prof, feat, bins in (("verif", None, None), ("verif", "borsh", ["C18"]), ("verif", "hooks", ["C03", "C10", "C16"])):
             b, log, dt = build(prof, feat, bins)
             print(f"build profile={prof} features={feat}: {'ok' if b else 'FAILED'} {dt:.1f}s")
             if not b:
